@@ -27,8 +27,9 @@ def run(L, rep, tier, seed):
         fin = FINISH[ctx.choose(len(FINISH), 'finish')]
         data, body, declared, end, headlen = build_request(ctx, fr, tier)
         nb = len(body)
-        cv = Conv(S, ctx, data, end='eof', short_reads=False)
-        sc = lambda m: {'kind': 'conversation', 'framing': fr, 'consume': co, 'finish': fin,
+        seg = 'choose' if (fr == 'cl-small' or (fr == 'cl-1025' and co in ('none', 'one-byte'))) and ctx.choose(2, 'segmented') else False
+        cv = Conv(S, ctx, data, end='eof', short_reads=seg)
+        sc = lambda m: {'kind': 'conversation', 'framing': fr, 'consume': co, 'finish': fin, 'segmented': bool(seg),
                         'bytes_hex': model_bytes(m, data).hex() if len(data) < 400 else None, 'text': model_bytes(m, data[:160]).decode('latin1')}
         rq = cv.next()
         if rq is None or rq is PARKED:
